@@ -79,6 +79,26 @@ def field_boundaries(data, values, majors=(0, 1)):
                 yield data[:n.start] + cborgen.head(mj, v) + data[n.end:]
 
 
+def string_fields(data, payloads):
+    """every byte/text string of a valid file replaced by each hostile payload (one string at a time): printf directives,
+    embedded NULs, terminal escapes, over-long labels - whatever ends up in a renderer's or a tool's output path"""
+    tree = cborgen.parse(data)[0]
+    strs = []
+    def walk(x):
+        if x.major in (2, 3) and not x.indef:
+            strs.append(x)
+        for c in x.children:
+            walk(c)
+    walk(tree)
+    for n in strs:
+        for pl in payloads:
+            yield data[:n.start] + cborgen.head(n.major, len(pl)) + pl + data[n.end:]
+
+
+HOSTILE_STRINGS = [b"%s%s%s%s%s%s%s%s%n%n", b"%999999999d%n", b"A%x%x%x%x%x%x%x%x%x%x%x%x%sZ", b"\x00mid\x00", b"\x1b[2J\xff\xfe", b"\x3f" + b"a" * 70,
+                   b"%" * 300]
+
+
 def byte_mutate(rng, data):
     b = bytearray(data)
     for _ in range(rng.choice([1, 1, 2, 5])):
@@ -220,7 +240,7 @@ def check(run):
         for data, err in r["plain"]:
             if data:
                 valid.append(data)
-    n_mut = 10000 if quick else 250000
+    n_mut = 12000 if quick else 250000
     for v in valid[:300]:
         inputs.append(("valid", v))
     trees = []
@@ -237,6 +257,13 @@ def check(run):
             inputs.append(("field-boundary", d))
     for v in (small[:1] + small[len(small) // 2:len(small) // 2 + 1] if quick else small[:12]):
         fb_tools += list(field_boundaries(v, (0, 2**63, 2**64 - 1), majors=(0,)))
+    # hostile contents in every string of a few files with many members (reader, renderers and tools)
+    rich = sorted(set(valid), key=lambda v: -v.count(b"\x03www"))[:(3 if quick else 25)] + small[:2]
+    for v in rich:
+        for d in string_fields(v, HOSTILE_STRINGS):
+            inputs.append(("hostile-string", d))
+            if len(fb_tools) < (4000 if quick else 60000):
+                fb_tools.append(d)
     import copy
     while len(inputs) < n_mut:
         k = rng.random()
